@@ -1161,6 +1161,44 @@ pub struct SkP {
 	#[codec(skip)]
 	pub junk: u64,
 }
+/// struct-like variants whose explicit index differs from their position
+#[derive(Encode, Decode, DecodeWithMemTracking, MaxEncodedLen, Debug, PartialEq, Clone)]
+pub enum EN {
+	#[codec(index = 4)]
+	P { a: u8 },
+	Q,
+	#[codec(index = 0)]
+	R { b: u16, c: bool },
+}
+impl Uni for EN {
+	fn desc() -> String {
+		format!(
+			"(TEnum (VsCons 4 {} (VsCons 1 TUnit (VsCons 0 {} VsNil))))",
+			nest("TPair", "TUnit", &[u8::desc()]),
+			nest("TPair", "TUnit", &[u16::desc(), bool::desc()])
+		)
+	}
+	fn gen(r: &mut Rng, d: u32) -> Self {
+		match r.below(3) {
+			0 => EN::P { a: u8::gen(r, d) },
+			1 => EN::Q,
+			_ => EN::R { b: u16::gen(r, d), c: bool::gen(r, d) },
+		}
+	}
+	fn val(&self) -> String {
+		match self {
+			EN::P { a } => format!("(VVar 0 {})", nest("VPair", "VUnit", &[a.val()])),
+			EN::Q => "(VVar 1 VUnit)".into(),
+			EN::R { b, c } => format!("(VVar 2 {})", nest("VPair", "VUnit", &[b.val(), c.val()])),
+		}
+	}
+	fn same(&self, o: &Self) -> bool {
+		self == o
+	}
+	fn min_wire() -> usize {
+		1
+	}
+}
 impl Uni for SkP {
 	fn desc() -> String {
 		nest("TPair", "TUnit", &[u32::desc()])
